@@ -450,10 +450,25 @@ func (ex *Exec) constTerm(c *big.Int, t types.Type) *Term {
 }
 
 // assumeWF adds the type's representation facts (ranges, slice shape, allocation) to the path condition.
+// assumeAlloc: heap typing fact "a reference read from memory is nil or allocated". Unlike the other type facts it is
+// kept under quantifier binders (as a universally quantified assumption): without it a fresh allocation cannot be
+// told apart from the references a quantified invariant ranges over.
+func (ex *Exec) assumeAlloc(f *Term) {
+	if ex.allocFacts == nil {
+		ex.allocFacts = map[*Term]bool{}
+	}
+	ex.allocFacts[f] = true
+	ex.assume(f)
+}
+
 func (ex *Exec) assumeWF(v Val, t types.Type) {
 	ts := ex.ts
 	switch x := v.(type) {
 	case Scalar:
+		if _, isMap := under(t).(*types.Map); isMap && x.T != nil && x.T.S == SInt {
+			// a map handle is nil or an allocated map
+			ex.assumeAlloc(ts.And(ts.Le(ts.Int(0), x.T, true), ts.Le(x.T, ex.st.na, true)))
+		}
 		if x.T != nil && isInteger(t) && !ex.bv {
 			lo, hi := intRange(t)
 			if intWidth(t) == 64 && !ex.overflowChecks() {
@@ -471,10 +486,10 @@ func (ex *Exec) assumeWF(v Val, t types.Type) {
 		ex.assume(ts.And(
 			ts.Le(z, x.Len, true), ts.Le(x.Len, x.Cap, true), ts.Le(z, x.Off, true),
 			ts.Le(x.Cap, mx, true), ts.Le(x.Off, mx, true),
-			ts.Le(ts.Int(0), x.Base, true), ts.Le(x.Base, ex.st.na, true),
 			ts.Implies(ts.Eq(x.Base, ts.Int(0)), ts.And(ts.Eq(x.Cap, z), ts.Eq(x.Off, z)))))
+		ex.assumeAlloc(ts.And(ts.Le(ts.Int(0), x.Base, true), ts.Le(x.Base, ex.st.na, true)))
 	case RefPtr:
-		ex.assume(ts.And(ts.Le(ts.Int(0), x.Ref, true), ts.Le(x.Ref, ex.st.na, true)))
+		ex.assumeAlloc(ts.And(ts.Le(ts.Int(0), x.Ref, true), ts.Le(x.Ref, ex.st.na, true)))
 	case IfaceV:
 		ex.assume(ts.Le(ts.Int(0), x.Tag, true))
 		ex.assume(ts.Le(x.Val, ex.st.na, true))
